@@ -226,7 +226,7 @@ CHECKS["C20"] = {
         {"probe": "fed", "harness": "Harness_C20_entities", "setup": "Setup_C20_entities", "reach": ["c20.compared"], "workers": 12, "race": True, "tag": "-sched",
          "configs_quick": ["fed_single"], "configs_thorough": ["fed_single", "fed_wl2"], "sched_confirm": True,
          "quick": {"params": {"maxreps": 3, "budget": 1, "shapes": 3, "gated": 1}, "sample_models": 10, "sample_every": 97},
-         "thorough": {"params": {"maxreps": 3, "budget": 1, "shapes": 6, "gated": 1}, "sample_models": 20, "sample_every": 997},
+         "thorough": {"params": {"maxreps": 3, "budget": 1, "shapes": 4, "gated": 1}, "sample_models": 20, "sample_every": 997},
          "what": "same, every completion order of the per-type groups and per-entity goroutines (3 representations over the first 3 / 6 shapes), with the happens-before race check on the result list"},
     ],
 }
